@@ -216,6 +216,26 @@ def build_harness_obj(src, cxx="g++", flags=(), extra_deps=()):
     return obj
 
 
+def build_ext_obj(path, cxx="g++", flags=(), deps=()):
+    """Compile a source file that lives in the repository (Arduino port, example tools) - cached by content."""
+    flags = list(flags)
+    h = sha_files([path] + list(deps), json.dumps([cxx, flags, "ext"]))
+    out = os.path.join(BUILD, "hobj", h)
+    obj = os.path.join(out, os.path.splitext(os.path.basename(path))[0] + ".o")
+    if os.path.exists(obj):
+        os.utime(out, None)
+        return obj
+    _mk(out)
+    tmpo = obj + ".tmp%d" % os.getpid()
+    cmd = [cxx, "-g", "-O2"] + flags + ["-c", "-o", tmpo, path]
+    rc, outp = sh(cmd)
+    if rc != 0:
+        shutil.rmtree(out, ignore_errors=True)
+        raise InfraError("repository source does not compile: %s\n%s" % (" ".join(cmd), outp[-4000:]))
+    os.replace(tmpo, obj)
+    return obj
+
+
 def link(objs, out, cxx="g++", libs=("-lrapidcheck",), flags=()):
     cmd = [cxx, "-o", out] + list(flags) + list(objs) + list(libs) + ["-lpthread"]
     rc, outp = sh(cmd)
